@@ -176,6 +176,34 @@ func load(repo string, cfg BuildConfig, overlay map[string][]byte, rounds int, l
 			p.Funcs = append(p.Funcs, fn)
 		}
 	}
+	// an unexported helper the rules do not know, all of whose call sites were spliced into
+	// their callers, is dead code of the normalised program
+	if len(overlay) > 0 {
+		used := map[*ssa.Function]bool{}
+		for _, fn := range p.Funcs {
+			for _, b := range fn.Blocks {
+				for _, in := range b.Instrs {
+					for _, op := range in.Operands(nil) {
+						if f, ok := (*op).(*ssa.Function); ok && f != fn {
+							used[f] = true
+						}
+					}
+				}
+			}
+		}
+		keep := p.Funcs[:0]
+		for _, fn := range p.Funcs {
+			root := fn
+			for root.Parent() != nil {
+				root = root.Parent()
+			}
+			if !used[root] && root.Object() != nil && !root.Object().Exported() && !isKnownFunc(root.String()) && root.Name() != "init" && root.Name() != "main" {
+				continue
+			}
+			keep = append(keep, fn)
+		}
+		p.Funcs = keep
+	}
 	sort.Slice(p.Funcs, func(i, j int) bool { return funcName(p.Funcs[i]) < funcName(p.Funcs[j]) })
 	return p, nil
 }
